@@ -33,8 +33,8 @@ func init() {
 			"open finding D16: the dependency's package-level hash functions share one hasher; reports whose owner frames are all in github.com/moorara/algo are attributed to it",
 		},
 		floorQuick: 300, floorThorough: 3000,
-		serial:     true,
-		run:        runC17,
+		serial: true,
+		run:    runC17,
 	})
 	auxCommands["c17one"] = c17One
 	auxCommands["c17conc"] = c17Conc
